@@ -85,6 +85,23 @@ def r03_1(run):
                 done = False
                 for sp_ in splat:
                     d = sp_.value.id
+                    # the option is written into the dict where the dict is built: d = {"out": out, "dtype": dtype} / dict(out=out, dtype=dtype)
+                    lits = []
+                    for s_ in own_nodes(fi.node):
+                        if isinstance(s_, ast.Assign) and assigned_name(s_) == d:
+                            v_ = s_.value
+                            if isinstance(v_, ast.Dict) and any(isinstance(k_, ast.Constant) and k_.value == p and norm(x_) == p for k_, x_ in zip(v_.keys, v_.values)):
+                                lits.append(s_)
+                            elif isinstance(v_, ast.Call) and dotted(v_.func) == "dict" and any(kk_.arg == p and norm(kk_.value) == p for kk_ in v_.keywords):
+                                lits.append(s_)
+                    if lits:
+                        nl = cfg.node_for(lits[0])
+                        redefs = [s_ for s_ in own_nodes(fi.node) if isinstance(s_, ast.Assign) and assigned_name(s_) == d and s_ is not lits[0]]
+                        ok = nl is not None and cfg.dominates(nl, nk) and not redefs and reaching_defs(cfg, p, nl) == [ENTRY]
+                        run.ob("R03.1", loc(fi, lits[0]), fi.short, f"option {p} forwarded through **{d} (written where the dict is built)", ok,
+                               f"{d} = {{..., {p!r}: {p}, ...}} dominates the kernel call" if ok else f"a caller-supplied {p} can fail to reach the NumPy kernel")
+                        done = True
+                        continue
                     sets = [s for s in own_nodes(fi.node) if isinstance(s, ast.Assign) and isinstance(s.targets[0], ast.Subscript)
                             and norm(s.targets[0].value) == d and isinstance(s.targets[0].slice, ast.Constant)
                             and s.targets[0].slice.value == p and norm(s.value) == p]
